@@ -1,6 +1,7 @@
 """C13 — collateral is adequate, key-locked and balanced."""
 import hashlib, json, math
 from lib import common as C
+from props import alike as A
 
 PID = 'C13'
 TARGETS = ['props/C13.vo', 'theories/CollateralOracle.vo']
@@ -583,8 +584,8 @@ def nontrivial(sc, res):
 
 def make_cases(ctx, n_slice, n_build):
     cases = corpus()
-    cases += [gen_slice(ctx.rng) for _ in range(n_slice)]
-    cases += [gen_build(ctx.rng) for _ in range(n_build)]
+    cases += [A.lookalike_ids(ctx.rng, gen_slice(ctx.rng)) for _ in range(n_slice)]
+    cases += [A.lookalike_ids(ctx.rng, gen_build(ctx.rng)) for _ in range(n_build)]
     return cases
 
 
